@@ -31,3 +31,4 @@ def run(ctx, rep):
     rep.run(RF.rule_write_provenance, ctx, rep, "R4", min_sites=4)
     rep.run(RF.rule_read_sites, ctx, rep, "R5", min_sites=4)
     rep.run(RF.rule_whole_file_writes, ctx, rep, "R6", min_sites=3)
+    rep.run(RF.rule_item_state_defined_before_use, ctx, rep, "R7")
